@@ -71,6 +71,14 @@ def build_cases(work, tier, rnd, gen_exprs=None):
         take = special[:180] + rest[:180] + wtexts
     else:
         take = special + rest[:5000] + wtexts
+    # planned four-token texts: case-irregular letter, protected unit letter, entities (every one, against the number and
+    # unit models of every culture: both pre-processing steps of those models meet in one query)
+    g2b, stp = flow.generate(work, 'Gen_Noise', 'Gen_Noise_plan.cfg')
+    ptexts = sorted({text_of(s) for s in stp})
+    for t in ptexts:
+        for api, cul in pairs:
+            if api in ('number', 'ordinal', 'percentage', 'currency', 'dimension', 'temperature', 'age') and (tier == 'thorough' or cul in ('en-us', 'de-de', 'fr-fr')):
+                cases.append({'api': api, 'culture': cul, 'text': t, 'ref': None, 'src': 'noise-plan'})
     cultures = sorted({c for _, c in pairs})
     for n, t in enumerate(take):
         if tier == 'thorough' or n % 6 == 0:
@@ -130,7 +138,8 @@ def build_cases(work, tier, rnd, gen_exprs=None):
             cases.append({'api': api_of(c), 'culture': c.get('culture', 'en-us'), 'text': carrier.format(t), 'ref': c.get('ref') or '2019-03-10T12:00:00', 'src': 'generated:' + mod})
     gens = [{'module': 'Gen_Mods + expression generators of C03, C06-C08, C10, C20', 'cfg': 'quick configurations', 'distinct_states': extra_states},
             {'module': 'Gen_Noise', 'cfg': 'Gen_Noise_2.cfg', 'distinct_states': g1['distinct']},
-            {'module': 'Gen_Noise', 'cfg': 'Gen_Noise_walk.cfg (simulate)', 'distinct_states': g2['generated']}]
+            {'module': 'Gen_Noise', 'cfg': 'Gen_Noise_walk.cfg (simulate)', 'distinct_states': g2['generated']},
+            {'module': 'Gen_Noise', 'cfg': 'Gen_Noise_plan.cfg', 'distinct_states': g2b['distinct']}]
     return cases, gens, g1['distinct'] + g2['generated'] + extra_states, g1['generated'] + g2['generated'] + 2 * extra_states
 
 
